@@ -23,7 +23,8 @@ Inductive pv :=
 | VList (l : list pv)
 | VTuple (l : list pv)
 | VDict (dflt : option pv) (items : list (pv * pv))   (* insertion-ordered; dflt = defaultdict factory value *)
-| VObj (cls : str) (fields : list (str * pv)).          (* dataclass instance *)
+| VObj (cls : str) (fields : list (str * pv))           (* dataclass instance (functional embedding) *)
+| VRef (a : nat).                                       (* address of a mutable object (heap embedding, PyHeap.v) *)
 
 (* ---------- outcome of a block of statements ---------- *)
 Inductive out (S : Type) := Nx (s : S) | Rt (v : pv) | Ex (e : exn).
@@ -64,6 +65,7 @@ Definition py_truth (v : pv) : bool :=
   | VList l | VTuple l => match l with [] => false | _ => true end
   | VDict _ l => match l with [] => false | _ => true end
   | VObj _ _ => true
+  | VRef _ => true        (* not used: the heap embedding tests truth through the heap *)
   end.
 
 Definition int_like (v : pv) : option Z :=
@@ -233,12 +235,24 @@ Fixpoint py_update_path (c : pv) (path : list pv) (f : pv -> res pv) : res pv :=
 Definition py_append (c v : pv) : res pv :=
   match c with VList l => Ok (VList (l ++ [v])) | _ => Err AttributeError end.
 
+Definition k_iter : str := [95;95;105;116;101;114;95;95]%N.   (* "__iter__" *)
 (* what iterating over a value yields *)
 Definition py_iter (v : pv) : res (list pv) :=
   match v with
   | VList l | VTuple l => Ok l
   | VStr s => Ok (map (fun c => VStr [c]) s)
   | VDict _ l => Ok (map fst l)
+  | VObj _ fs =>
+      (* an object is iterable when it carries the list of what iterating it yields (an lxml
+         element yields its children): field "__iter__" *)
+      match (fix get (l : list (str * pv)) : option pv :=
+               match l with
+               | [] => None
+               | (k, v) :: r => if str_eqb k k_iter then Some v else get r
+               end) fs with
+      | Some (VList l) => Ok l
+      | _ => Err TypeError
+      end
   | _ => Err TypeError
   end.
 Definition py_list (v : pv) : res pv := l <- py_iter v ;; Ok (VList l).
@@ -345,3 +359,31 @@ Definition one (r : res pv) : res (list pv) := v <- r ;; Ok [v].
 (* constants of the standard library the translated code mentions *)
 Definition ascii_lowercase : pv :=
   VStr [97;98;99;100;101;102;103;104;105;106;107;108;109;110;111;112;113;114;115;116;117;118;119;120;121;122]%N.
+
+(* ---------- any / max / in / next / with suppress (batch 2) ---------- *)
+(* any(f(x) for x in it): short-circuit at the first true item *)
+Fixpoint any_go (f : pv -> res pv) (l : list pv) : res pv :=
+  match l with
+  | [] => Ok (VBool false)
+  | x :: r => c <- f x ;; if py_truth c then Ok (VBool true) else any_go f r
+  end.
+Definition py_any (it : pv) (f : pv -> res pv) : res pv := l <- py_iter it ;; any_go f l.
+Definition py_max2 (a b : pv) : res pv :=
+  match int_like a, int_like b with
+  | Some x, Some y => Ok (VInt (Z.max x y))
+  | _, _ => Err TypeError
+  end.
+(* x in {c1, c2, ...} for a set display of constants *)
+Definition py_in_consts (x : pv) (cs : list pv) : res pv := Ok (VBool (existsb (pv_eqb x) cs)).
+(* next(it) on the (eagerly evaluated) items *)
+Definition py_next (it : pv) : res pv :=
+  l <- py_iter it ;; match l with x :: _ => Ok x | [] => Err StopIteration end.
+Definition exn_eqb (a b : exn) : bool := Nat.eqb (exn_code a) (exn_code b).
+(* with suppress(E): body  -- the exception E raised in the body ends the body; the variables
+   assigned in the body are not read afterwards (checked by the translator), so the state
+   before the block is handed on *)
+Definition py_suppress {S} (e : exn) (body : out S) (before : S) : out S :=
+  match body with
+  | Ex e' => if exn_eqb e e' then Nx before else Ex e'
+  | o => o
+  end.
